@@ -75,6 +75,32 @@ theorem C11_override_upward_partial (u : U) (level vk b : Nat) (h : round u leve
   obtain ⟨_, h2, _, _⟩ := round_spec u level vk b h
   exact versionsGreater_gt _ _ _ hs b h2
 
+/-- The same with the ecosystem's comparator in the statement (audit-2, finding 5).  `ver` names the version each
+identifier stands for.  For EVERY comparator `cmp` that is a total preorder on the versions at hand (the resolved one
+and the known ones) — whose rank is then necessarily the canonical one, `C11_rank_exists_iff` — and a version list
+sorted by `cmp`, an override step goes to a version that `cmp` calls strictly greater than the resolved one. -/
+theorem C11_override_upward_cmp_partial {α : Type} (cmp : α → α → Ordering) (ver : Nat → α) (u : U) (level vk b : Nat)
+    (hT : TotalPreorderOn cmp ((vk :: u.vs).map ver))
+    (hr : ∀ x, u.rank x = countBelow cmp ((vk :: u.vs).map ver) (ver x))
+    (hs : u.vs.Pairwise (fun a b => cmp (ver a) (ver b) ≠ .gt))
+    (h : round u level vk = some b) : cmp (ver vk) (ver b) = .lt := by
+  have R := rank_of_total_preorder cmp _ hT
+  have hmem : ∀ x ∈ vk :: u.vs, ver x ∈ (vk :: u.vs).map ver := fun x hx => List.mem_map_of_mem hx
+  have hsorted : Sorted u.rank u.vs := by
+    unfold Sorted
+    refine List.Pairwise.imp_of_mem ?_ hs
+    intro a b ha hb hab
+    have e := R (ver a) (hmem a (by simp [ha])) (ver b) (hmem b (by simp [hb]))
+    rw [← hr a, ← hr b] at e
+    rw [e, ne_eq, Nat.compare_eq_gt] at hab
+    omega
+  have hlt := C11_override_upward_partial u level vk b h hsorted
+  have hb : b ∈ u.vs := (C11_override_step u level vk b h).2.1
+  have e := R (ver vk) (hmem vk (by simp)) (ver b) (hmem b (by simp [hb]))
+  rw [← hr vk, ← hr b] at e
+  rw [e, Nat.compare_eq_lt]
+  exact hlt
+
 theorem C11_override_unsorted_witness :
     round ⟨[5, 1], id, fun _ _ => dPatch, 1, fun _ x => x = 5⟩ lMajor 5 = some 1 := by decide
 
@@ -194,8 +220,8 @@ resolves to IN THIS ROUND (whatever moved it there), with a difference the packa
 not None, and with fewer of the vulnerabilities that affect the resolved version. -/
 theorem C11_override_multi_step (u : MU) (res : Res) (pins : Pins) (p b : Nat) (h : stepP u res pins p = some b) :
     pins.getD p none = some b ∨
-    ∃ r, res.getD p none = some r ∧ u.level p ≠ lNone ∧ b ∈ u.vs p ∧ allows (u.level p) (u.diff p r b) = true ∧
-      (Sorted (u.rank p) (u.vs p) → u.rank p r < u.rank p b) ∧
+    ∃ r, res.getD p none = some r ∧ pickP u p r = some b ∧ u.level p ≠ lNone ∧ b ∈ u.vs p ∧
+      allows (u.level p) (u.diff p r b) = true ∧
       ((vulnsAt u p r).filter (u.aff · p b)).length < (vulnsAt u p r).length := by
   unfold stepP at h
   cases hr : res.getD p none with
@@ -208,7 +234,13 @@ theorem C11_override_multi_step (u : MU) (res : Res) (pins : Pins) (p b : Nat) (
       simp only [hp, Option.some.injEq] at h
       subst h
       obtain ⟨h1, h2, h3, h4⟩ := pickP_spec u p r c hp
-      exact Or.inr ⟨r, rfl, h1, versionsGreater_sub _ _ _ c h2, h3, fun hs => versionsGreater_gt _ _ _ hs c h2, h4⟩
+      exact Or.inr ⟨r, rfl, hp, h1, versionsGreater_sub _ _ _ c h2, h3, h4⟩
+
+/-- … and the version a round picks for a package is strictly above the version that package resolves to in that
+round, when the package's version list is sorted by its comparator -/
+theorem C11_override_multi_upward_partial (u : MU) (p r b : Nat) (h : pickP u p r = some b)
+    (hs : Sorted (u.rank p) (u.vs p)) : u.rank p r < u.rank p b :=
+  versionsGreater_gt _ _ _ hs b (pickP_spec u p r b h).2.1
 
 /-- Termination for several packages, any resolver that honours pins (`HonoursPinsM`: a pinned package resolves to
 its pin or is absent; everything else is unconstrained): the sum over the packages of "versions above the
@@ -337,6 +369,9 @@ theorem C11_relax_step (t : T) (level : Nat) (o : Out) (h : relax t level = some
                 · rw [hd]; exact hda
           · simp [ha] at h
 
+/-- (definitional: the first test of `Relax` — it says that no requirement is rewritten for a package at level None; the
+package's RESOLVED version can still move when something above it is relaxed, which the property's "never touches" has
+to be read against: see the C12 side-effect cases) -/
 theorem C11_none_untouched_relax (t : T) : relax t lNone = none := by simp [relax]
 
 /-! Non-vacuity: versions 1.0.0 1.0.1 1.1.0 2.0.0 with requirement "1.0.0", level minor: `^1.1.0`. -/
@@ -372,6 +407,20 @@ theorem C11_update_step (level : Nat) (simple : Bool) (cur : Option V) (vs : Lis
         obtain ⟨g1, g2, g3⟩ := fold_spec level c vs vs none (fun _ h => h) (by intro w hw; cases hw) w hf
         exact ⟨c, rfl, g1, g2, g3⟩
       · cases h
+
+/-- The same with the comparator in the statement: `pos v` is the version each table row stands for, `c` the current
+one; for every `cmp` that is a total preorder on them and whose rank the table carries, a proposed version is
+strictly greater than the current one under `cmp`. -/
+theorem C11_update_step_cmp_partial {α : Type} (cmp : α → α → Ordering) (pos : V → α) (level : Nat) (simple : Bool)
+    (c : V) (vs : List V) (v : V) (hT : TotalPreorderOn cmp ((c :: vs).map pos))
+    (hr : ∀ x ∈ c :: vs, x.rank = countBelow cmp ((c :: vs).map pos) (pos x))
+    (h : suggest level simple (some c) vs = .update v) : cmp (pos c) (pos v) = .lt ∧ allows level v.diff = true := by
+  obtain ⟨c', hc, hv, ha, hlt⟩ := C11_update_step level simple (some c) vs v h
+  injection hc with hc; subst hc
+  have R := rank_of_total_preorder cmp _ hT
+  have e := R (pos c) (List.mem_map_of_mem (by simp)) (pos v) (List.mem_map_of_mem (by simp [hv]))
+  rw [← hr c (by simp), ← hr v (by simp [hv])] at e
+  exact ⟨by rw [e, Nat.compare_eq_lt]; exact hlt, ha⟩
 
 /-- a range that no known version satisfies leaves the requirement alone (the former nil dereference) -/
 theorem C11_update_no_current (level : Nat) (simple : Bool) (vs : List V) : suggest level simple none vs = .keep := rfl
